@@ -373,7 +373,7 @@ func concretizeInner(m *sx.Machine, md Model, n *sx.Node, sr *StringRealizer) (a
 	case sx.TagObject:
 		t := goType(md, n)
 		out := reflect.MakeMap(t)
-		for i, k := range n.Tm.Keys {
+		for i, k := range n.Keys() {
 			if md.Bool(n.Present[i]) {
 				e, err := Concretize(m, md, n.Val(i), sr)
 				if err != nil {
